@@ -874,9 +874,18 @@ func runPerm(r *vk.Run, ps *permStats) map[string]any {
 	blockSubset("perm-block")
 	// entry contexts: the same matrix when the caller's code is entered as verify,
 	// _deploy, onNEP17Payment, _initialize, a loaded script (and an ordinary method)
-	er := &entryRunner{r: r, pw: pw, st: &entryStats{byCtx: map[string]int64{}}, reported: map[string]int{}}
+	er := &entryRunner{r: r, pw: pw, st: &entryStats{byCtx: map[string]int64{}}, reported: map[string]int{}, best: map[string]entryWitness{}}
 	er.matrix(tcs, "")
 	er.blocks(tcs, "", []string{"call", "token"}, vk.Pick(r, 5, 1))
+	{ // what confines a loaded script: loaders without any permission and with the wildcard
+		var ls []callerSpec
+		for _, cs := range tcs {
+			if len(cs.Perms) == 0 || (len(cs.Perms) == 1 && cs.Perms[0].Desc == "*" && cs.Perms[0].Wild) {
+				ls = append(ls, cs)
+			}
+		}
+		er.loadFlags(ls)
+	}
 	// graceful restart on the same store: the Management cache is rebuilt from the
 	// STORED (stack item) form of every manifest; the predicate must hold as before
 	restarted := false
@@ -916,15 +925,12 @@ func runPerm(r *vk.Run, ps *permStats) map[string]any {
 	info["entry_context_cells_not_applicable"] = er.st.na
 	info["entry_context_blocks"] = er.st.blocks
 	info["entry_contexts"] = "app (ordinary method), init (_initialize), payment (onNEP17Payment called by GAS.transfer), deploy (_deploy of a new instance), update (_deploy(isUpdate) after the wildcard instance updated itself to the shape's manifest), loadscript, verify-witness (Blockchain.VerifyWitness), verify-tx (Blockchain.VerifyTx), verify-block (AddBlock); kinds: System.Contract.Call and CALLT"
-	info["loaded_script_called_unpermitted_method"] = er.st.loadSkips
+	info["loaded_script_flag_cells"] = er.st.loadCells
+	info["loaded_script_flag_cells_halted"] = er.st.loadHalt
+	info["loaded_script_callee_refused_witness_of_loader"] = er.st.loadWitnessRefused
+	info["loaded_script_flags_observed"] = er.st.loadFlagsSeen
 	ps.entry = er.st.cells
-	if er.loadWit != nil {
-		r.Violation("permission:entry-loadscript:loaded-script-skips-permission-check", map[string]any{
-			"what":         "a script loaded with System.Runtime.LoadScript by a deployed contract calls a non-safe method that no permission of the contract's manifest allows (the loaded context has no manifest, callInternal skips the check)",
-			"minimal_case": er.loadWit,
-			"cells":        er.st.loadSkips,
-		})
-	}
+	er.flush()
 	if len(ps.witness) > 0 {
 		min := ps.witness["perm-pure"]
 		if min == nil {
@@ -1031,6 +1037,13 @@ func replay(r *vk.Run) {
 			n, h, a := flagsInBlocks(r, &bc)
 			fmt.Printf("replay %d: %s(%s) with %s in a block: txs=%d halted=%d agreeing=%d violations so far=%d\n", i, bc.Op, bc.Args, bc.FName, n, h, a, r.NViolations())
 		}
+	case d.Sub == "entry-loadscript-flags":
+		var lc loadCase
+		if err := r.ReadReplay(&lc); err != nil {
+			fmt.Println("cannot read replay:", err)
+			os.Exit(3)
+		}
+		replayLoad(r, lc)
 	case d.Sub == "chain":
 		var cc chainCase
 		if err := r.ReadReplay(&cc); err != nil {
@@ -1049,6 +1062,19 @@ func replay(r *vk.Run) {
 			fmt.Printf("replay %d: chain %s %s %s: violated=%v seen=%v\n", i, cc.Shape, fname(cc.F1), fname(cc.F2), w.chainOne(r, &c, &ex), c.Seen)
 		}
 	default:
+		// entry-context cases
+		var eraw struct {
+			Case    *entryCase `json:"case"`
+			Minimal *entryCase `json:"minimal_case"`
+		}
+		_ = r.ReadReplay(&eraw)
+		if eraw.Case == nil {
+			eraw.Case = eraw.Minimal
+		}
+		if eraw.Case != nil && strings.HasPrefix(eraw.Case.Sub, "entry-") {
+			replayEntry(r, *eraw.Case)
+			break
+		}
 		// permission cases (and the group root cause): re-evaluate the recorded case
 		var raw struct {
 			Minimal *permCase `json:"minimal_case"`
